@@ -182,7 +182,7 @@ def o_literal(now, store, lit, s):
     fresh = [v for v in annvars if v not in s]
     if ann is not None:
         if fresh and (len(fresh) != len(annvars) or len(set(annvars)) != len(annvars)):
-            raise Outside("annotation mixes bound and unbound variables or repeats one (N20)")
+            raise Outside("annotation mixes bound and unbound variables or repeats one (N60)")
 
     def bind(s2, se):
         if ann is None or not fresh:
@@ -741,7 +741,7 @@ def w_n20():
     edb = [{"p": E0, "args": [CONSTS[1]], "iv": [ts(1), ts(2)]}, {"p": E1, "args": [CONSTS[1]], "iv": [ts(5), ts(6)]}]
     rules = [{"p": H5, "args": [X], "ht": [var(S), var(E2)],
               "prem": [lit(E0, [X], [var(S), var(E)]), lit(E1, [X], [var(E), var(E2)])]}]
-    return mk_case(3, edb, rules, "witness-N20")
+    return mk_case(3, edb, rules, "witness-N60")
 
 
 N3_SRC = """Decl p0(A0) temporal.
@@ -772,11 +772,11 @@ def probes(ck, cov):
         ck.violation({"property": "C14", "kind": "temporal facts are not counted by the created-fact limit (N15): "
                       "9 temporal facts derived under WithCreatedFactLimit(3) without an error", "case": c, "impl": out})
     for k in known_for("C14"):
-        if k["id"] == "N20":
+        if k["id"] == "N60":
             c = w_n20()
             out = ck.run_go("c14_prog", [c])[0].get("out", {})
             if out.get("facts"):
-                ck.known("N20 an annotation variable that is already bound is not compared with the fact's end point when "
+                ck.known("N60 an annotation variable that is already bound is not compared with the fact's end point when "
                          "another variable of the annotation is unbound (e0(X)@[S,E], e1(X)@[E,E2] joins [1,2] with [5,6]); "
                          "@[T] matches non-point intervals binding T to the start")
 
@@ -984,7 +984,7 @@ def run(ck):
         "specification is property C13",
         "atoms carry name constants /c0../c2 and time constants; Atom.Hash() collisions (finding F8) do not occur among them",
         "windows in the main stream satisfy 0 <= d1 <= d2 (reversed windows: observation N4); annotations never mix bound "
-        "and unbound variables (finding N20)",
+        "and unbound variables (finding N60)",
         "whole programs: the model iterates the rules naively to the least fixed point; the engine's semi-naive rounds are "
         "compared with it on the final set of facts only"])
 
@@ -1026,6 +1026,6 @@ META = {
             "brute-force pointwise oracle; thorough is exhaustive over all coalesced one-atom stores on 0..6 x times x windows x operators.",
     "note": "Trusted: Coq kernel + vm_compute; hand-written model tied to the code by differential evaluation (sampled, exhaustive "
             "block on the tiny timeline); store represented by its pair list (C13 ties the tree to it); reversed windows (N4) and "
-            "annotations mixing bound and unbound variables (N20, known finding probe) are outside the main stream; chained-rule "
+            "annotations mixing bound and unbound variables (N60, known finding probe) are outside the main stream; chained-rule "
             "stream runs only when stratification sees temporal literals (F4).",
 }
